@@ -341,7 +341,7 @@ impl TextSelection {
                 + match offset.begin {
                     Cursor::BeginAligned(x) => x,
                     Cursor::EndAligned(x) => {
-                        if textlen < x.abs() as usize {
+                        if x > 0 || textlen < x.abs() as usize {
                             return Err(StamError::CursorOutOfBounds(
                                 offset.begin,
                                 "(textselection_by_offset)",
@@ -357,7 +357,7 @@ impl TextSelection {
                 + match offset.end {
                     Cursor::BeginAligned(x) => x,
                     Cursor::EndAligned(x) => {
-                        if textlen < x.abs() as usize {
+                        if x > 0 || textlen < x.abs() as usize {
                             return Err(StamError::CursorOutOfBounds(
                                 offset.end,
                                 "(textselection_by_offset)",
@@ -377,7 +377,12 @@ impl TextSelection {
         match *cursor {
             Cursor::BeginAligned(cursor) => Ok(cursor),
             Cursor::EndAligned(cursor) => {
-                if cursor.abs() as usize > textlen {
+                if cursor > 0 {
+                    Err(StamError::CursorOutOfBounds(
+                        Cursor::EndAligned(cursor),
+                        "TextSelection::beginaligned_cursor(): end aligned cursor must be zero or negative",
+                    ))
+                } else if cursor.abs() as usize > textlen {
                     Err(StamError::CursorOutOfBounds(
                         Cursor::EndAligned(cursor),
                         "TextResource::beginaligned_cursor(): end aligned cursor ends up before the beginning",
